@@ -124,3 +124,54 @@ func vfH_c01_int() {
 }
 
 var _ = unsafe.Pointer(nil)
+
+// H01-intkeys: maps with integer keys and TWO entries with arbitrary distinct keys: encoding/json writes the members
+// sorted by the keys' DECIMAL TEXTS (so "-1" < "-2" and "10" < "9"), for signed (vfMode 0: int8, 1: int) and unsigned
+// (vfMode 2: uint8) key types, through Marshal and through Encoder.Encode.
+func vfH_c01_intkeys() {
+	b1, b2 := vfByte(), vfByte()
+	vfAssume(b1 != b2)
+	var v any
+	var s1, s2 []byte
+	switch vfMode {
+	case 0:
+		v = map[int8]bool{int8(b1): true, int8(b2): false}
+		s1, s2 = refInt(nil, int64(int8(b1))), refInt(nil, int64(int8(b2)))
+	case 1:
+		v = map[int]bool{int(int8(b1)): true, int(int8(b2)): false}
+		s1, s2 = refInt(nil, int64(int8(b1))), refInt(nil, int64(int8(b2)))
+	default:
+		v = map[uint8]bool{b1: true, b2: false}
+		s1, s2 = refUint(nil, uint64(b1)), refUint(nil, uint64(b2))
+	}
+	want := []byte(`{"`)
+	if string(s1) < string(s2) {
+		want = append(want, s1...)
+		want = append(want, `":true,"`...)
+		want = append(want, s2...)
+		want = append(want, `":false}`...)
+	} else {
+		want = append(want, s2...)
+		want = append(want, `":false,"`...)
+		want = append(want, s1...)
+		want = append(want, `":true}`...)
+	}
+	checkModel(v, want, true, true)
+	var got []byte
+	var err error
+	if vfFlags&1 == 0 {
+		got, err = Marshal(v)
+	} else {
+		var sb vfSinkBuf
+		err = NewEncoder(&sb).Encode(v)
+		got = sb.b
+		if len(got) > 0 {
+			got = got[:len(got)-1]
+		}
+	}
+	vfAssert(err == nil, "error-iff-encoding/json-fails")
+	if err == nil {
+		vfAssert(string(got) == string(want), "bytes==encoding/json")
+	}
+	vfCover("done")
+}
